@@ -152,6 +152,44 @@ def hank_bad(Y, Yref, br):
     Yp = np.vstack([(1 / N ** 0.5) * Yref[:, q + i:N + q - 1 + i] for i in range(0, -q, -1)])
     return Yf @ Yp.T
 
+def sc_loop(Fn, Xi, tol):
+    Lab = np.zeros(Fn.shape, dtype=int)
+    for o in range(1, Fn.shape[1]):
+        f1 = Fn[:, o - 1].reshape(-1, 1)
+        f0 = Fn[:, o].reshape(-1, 1)
+        for i in range(len(f0)):
+            idx = np.nanargmin(np.abs(f1 - f0[i]))
+            if np.abs(f0[i] - f1[idx]) / f0[i] < tol:
+                Lab[i, o] = 1
+    return Lab
+
+def _nearest(cur, prev):
+    dist = np.abs(prev[:, np.newaxis] - cur[np.newaxis, :])
+    rows = np.flatnonzero(~np.isnan(dist).all(axis=0))
+    return rows, np.nanargmin(dist[:, rows], axis=0)
+
+def sc_vec(Fn, Xi, tol):
+    Lab = np.zeros(Fn.shape, dtype=int)
+    for o in range(1, Fn.shape[1]):
+        cur, prev = Fn[:, o], Fn[:, o - 1]
+        rows, match = _nearest(cur, prev)
+        sel = cur[rows]
+        ok = np.abs(sel - prev[match]) / sel < tol
+        for i in rows[ok]:
+            Lab[i, o] = 1
+    return Lab
+
+def sc_vec_bad(Fn, Xi, tol):
+    Lab = np.zeros(Fn.shape, dtype=int)
+    for o in range(1, Fn.shape[1]):
+        cur, prev = Fn[:, o], Fn[:, o - 1]
+        rows, match = _nearest(cur, prev)
+        sel = cur[rows]
+        ok = np.abs(sel - Xi[:, o - 1][match]) / sel < tol
+        for i in rows[ok]:
+            Lab[i, o] = 1
+    return Lab
+
 def gate_ok(self):
     missing = self.fs is None or self.data is None
     if missing:
@@ -238,6 +276,25 @@ def run(root):
             res = all(all(o.startswith("raise:") for o in astq.outcomes(fi.node.body, {w: None})) for w in ("self.fs", "self.data", "self.run_params"))
             if res != expect:
                 fails.append(f"outcomes: {name} -> {res}")
+        # index-level model: a loop and its vectorisation lower to the same scalar condition
+        from . import lamdom
+        import re as _re
+        conds = {}
+        for name in ("sc_loop", "sc_vec", "sc_vec_bad"):
+            n += 1
+            fi = prog.func("functions.gen." + name)
+            it = lamdom.Interp(prog, fi, ranks={"Fn": 2, "Xi": 2, "tol": 0}).run()
+            ones = [st for st in it.stores if isinstance(st["value"], lamdom.Lam) and isinstance(st["value"].body, ast.Constant) and st["value"].body.value == 1]
+            if len(ones) != 1 or not isinstance(ones[0]["index"][0], lamdom.Lam):
+                fails.append(f"lamdom: {name}: store of 1 not reached ({len(ones)})")
+                continue
+            row = astq.src(ones[0]["index"][0].body)
+            txt = sorted(_re.sub(r"\b" + _re.escape(row) + r"\b", "ROW", astq.src(c, 400)) for c, pol in ones[0]["path"] if pol and "tol" in astq.src(c, 400))
+            conds[name] = txt
+        if conds.get("sc_loop") and conds.get("sc_loop") != conds.get("sc_vec"):
+            fails.append(f"lamdom: loop and vectorised spelling lower differently: {conds.get('sc_loop')} vs {conds.get('sc_vec')}")
+        if conds.get("sc_vec_bad") and conds.get("sc_vec_bad") == conds.get("sc_loop"):
+            fails.append("lamdom: broken vectorisation not distinguished")
         # polynomial substitution under atoms
         n += 1
         from .poly import P_div
